@@ -1,4 +1,5 @@
 import PistacheModel.Model.Lifecycle
+import PistacheModel.Model.LifecycleTables
 import Driver.Util
 open Pistache Pistache.Lifecycle
 
@@ -8,6 +9,11 @@ structure LRun where
   s : LState := {}
   open_ : List Bool            -- client side still open
   seen : List String
+  tevs : List TEv := []        -- the same history for the tables model (with the writes queued / completed)
+
+/-- a handler-level event, also recorded for the tables model -/
+def LRun.ev (r : LRun) (e : Ev) : LRun := { r with s := step r.s e, tevs := r.tevs ++ [.base e] }
+def LRun.tev (r : LRun) (e : TEv) : LRun := { r with tevs := r.tevs ++ [e] }
 
 def collapse : List Call → String
   | [] => ""
@@ -24,23 +30,25 @@ def lifeRound (scripts : List (List Char)) (r : LRun) (j : Nat) : LRun := Id.run
     if j < sc.length && r.open_.getD i false then
       let a := sc.getD j ' '
       if a == 'R' then
-        r := { r with s := step r.s (.data i), seen := r.seen.modify i (· ++ "200;") }
-      else if a == 'P' || a == 'B' then r := { r with s := step r.s (.data i) }
+        -- request, answer queued and written out
+        r := { ((r.ev (.data i)).tev (.queueWrite i)).tev (.drained i) with seen := r.seen.modify i (· ++ "200;") }
+      else if a == 'P' then r := r.ev (.data i)
+      else if a == 'B' then r := (r.ev (.data i)).tev (.queueWrite i)        -- the answer stays blocked in the write queue
       else if a == 'Z' then
         -- a request, then silence until the server expires the connection (the 408 follows the blocked answer), then the close
-        r := { r with s := step (step r.s (.data i)) (.expire i), seen := r.seen.modify i (· ++ "200+408!;"), open_ := r.open_.set i false }
-      else if a == 'A' then r := { r with s := step (step r.s (.data i)) (.gone i), open_ := r.open_.set i false }
+        r := { ((r.ev (.data i)).tev (.queueWrite i)).ev (.expire i) with seen := r.seen.modify i (· ++ "200+408!;"), open_ := r.open_.set i false }
+      else if a == 'A' then r := { (r.ev (.data i)).ev (.gone i) with open_ := r.open_.set i false }
       else if a == 'S' || a == 's' then
         -- the request is handled; both flushes of the streamed answer fail (the client is gone); then the read side sees the loss
-        r := { r with s := step (step (step (step r.s (.data i)) (.writeFail i)) (.writeFail i)) (.gone i), open_ := r.open_.set i false }
+        r := { ((((r.ev (.data i)).tev (.queueWrite i)).ev (.writeFail i)).ev (.writeFail i)).ev (.gone i) with open_ := r.open_.set i false }
       else if a == 'C' || a == 'H' || a == 'X' then
-        r := { r with s := step r.s (.gone i), open_ := r.open_.set i false }
+        r := { r.ev (.gone i) with open_ := r.open_.set i false }
       else if a == 'T' then waitT := true
       else pure ()
   if waitT then
     -- every registered connection has been idle for longer than the time-out plus a timer period
     for i in r.s.peers do
-      r := { r with s := step r.s (.expire i) }
+      r := r.ev (.expire i)
     for i in [0:scripts.length] do
       let sc := scripts.getD i []
       if j < sc.length && sc.getD j ' ' == 'T' && r.open_.getD i false then
@@ -51,17 +59,19 @@ def lifeOp : List String → Option String
   | ["life", _hdr, _threads, scriptsS] => do
     let scripts := (scriptsS.splitOn ",").map String.toList
     let n := scripts.length
-    let s0 := (List.range n).foldl (fun s i => step s (.accept i)) ({} : LState)
-    let r0 : LRun := { s := s0, open_ := List.replicate n true, seen := List.replicate n "" }
+    let r00 : LRun := { open_ := List.replicate n true, seen := List.replicate n "" }
+    let r0 := (List.range n).foldl (fun (r : LRun) i => r.ev (.accept i)) r00
     let maxlen := scripts.foldl (fun m sc => max m sc.length) 0
     let r1 := (List.range maxlen).foldl (lifeRound scripts) r0
     -- the harness closes what is still open
-    let s2 := (List.range n).foldl (fun s i => if r1.open_.getD i false then step s (.gone i) else s) r1.s
+    let r2 := (List.range n).foldl (fun (r : LRun) i => if r1.open_.getD i false then r.ev (.gone i) else r) r1
+    let s2 := r2.s
+    let t2 := trun r2.tevs
     let parts := (List.range n).map fun i =>
       let shape := collapse (callsOf s2 i)
       let sn := r1.seen.getD i ""
       (if shape.isEmpty then "-" else shape) ++ "/" ++ (if sn.isEmpty then "-" else sn)
-    pure s!"conns={",".intercalate parts} fds={s2.peers.length} serve=1"
+    pure s!"conns={",".intercalate parts} fds={t2.fds.length} serve=1 tables={t2.base.peers.length}/{t2.toWrite.length}/{t2.timers.length}"
   | _ => none
 
 end Drv
